@@ -549,17 +549,9 @@ func (m *fsMetaOp) GetAllCollection(ctx context.Context, f api.CollectionFilter)
 	return out, nil
 }
 func (m *fsMetaOp) GetAllPartition(ctx context.Context, f api.PartitionFilter) ([]*pb.PartitionInfo, error) {
-	var out []*pb.PartitionInfo
-	for _, c := range m.r.sc.Colls {
-		if c.UnknownPart {
-			p := &pb.PartitionInfo{PartitionID: c.ID*10 + 2, PartitionName: "p1", CollectionId: c.ID, PartitionCreatedTimestamp: fsTs(950, 0), State: pb.PartitionState_PartitionCreated}
-			out = append(out, p)
-			if f != nil {
-				f(p)
-			}
-		}
-	}
-	return out, nil
+	// (the partition of an UnknownPart collection is not announced: the reader meets messages for a partition that
+	// neither it nor the downstream knows)
+	return nil, nil
 }
 func (m *fsMetaOp) GetCollectionNameByID(ctx context.Context, id int64) string {
 	if c := m.coll(id); c != nil {
@@ -738,9 +730,24 @@ func (r *fsRun) restart() {
 	time.Sleep(5 * time.Minute)
 	old := r.cur
 	inc := r.newInc(old.mq)
-	r.ev(fsEvent{Inc: inc.n, Kind: "restart"})
+	r.ev(fsEvent{Inc: inc.n, Kind: "restart", Detail: r.droppedUpstream()})
 	inc.cdc.ReloadTask()
 	r.restarting = false
+}
+
+// droppedUpstream lists (as ",id,id,") the collections whose drop has happened upstream by now: a reader has seen
+// the drop message on some shard, so the source catalog reports them as dropped to every later incarnation.
+func (r *fsRun) droppedUpstream() string {
+	out := ","
+	for _, c := range r.sc.Colls {
+		for _, sh := range c.Shards {
+			if dp := sh.dropPack(); dp >= 0 && r.cur.mq.Published(sh.SrcV) > dp {
+				out += fmt.Sprintf("%d,", c.ID)
+				break
+			}
+		}
+	}
+	return out
 }
 
 // taskStates: what Get reports for every task of the scenario (current incarnation)
